@@ -450,7 +450,9 @@ class Prop:
         if not cases:
             return []
         lines = [self.impl_line(c) for c in cases]
-        rc, outs, err = run_impl(binpath, lines, args=self.impl_args(tier), timeout=1800)
+        # a driver that does not answer (the code under test spins or dead-locks) ends the run as a
+        # broken correspondence; the quick tier's drivers finish within a minute, so do not wait 30 min
+        rc, outs, err = run_impl(binpath, lines, args=self.impl_args(tier), timeout=600 if tier == "quick" else 1800)
         if rc != 0 or len(outs) != len(cases):
             raise MachineryBroken("harness binary %s: rc=%s, %d lines for %d cases\nstderr: %s" %
                                   (binpath, rc, len(outs), len(cases), err[-3000:]))
